@@ -16,8 +16,9 @@ open Qfx Qfx.Framer
 def findFrom (off : Nat) (d s : Bytes) : Option Nat :=
   if off ≤ s.length then (indexOf d (s.drop off)).map (· + off) else none
 
-/-- `s` starts at a BeginString marker: where the search for the trailer starts -/
-def bodyEnd (guarded : Bool) (s : Bytes) : Res Nat :=
+/-- `s` starts at a BeginString marker: the offset where the search for the trailer starts
+    (`guarded = false`: the arithmetic before the `fix:` commit, which can wrap to a negative offset) -/
+def bodyEnd (guarded : Bool) (s : Bytes) : Res Int :=
   match findFrom 0 dLen s with
   | none => .err "eof"
   | some li =>
@@ -30,8 +31,7 @@ def bodyEnd (guarded : Bool) (s : Bytes) : Res Nat :=
         | .ok n =>
           if n ≤ 0 then .err "Invalid length"
           else if guarded && decide (wrap64 ((off : Int) + n) < (off : Int)) then .err "Invalid length"
-          else if wrap64 ((off : Int) + n) < 0 then .fault "slice bounds out of range"
-          else .ok (wrap64 ((off : Int) + n)).toNat
+          else .ok (wrap64 ((off : Int) + n))
         | .err x => .err x
         | .fault w => .fault w
 
@@ -43,12 +43,14 @@ def nextFrame (guarded : Bool) (s : Bytes) : Res (Bytes × Bytes) :=
     let s1 := s.drop start
     match bodyEnd guarded s1 with
     | .ok be =>
-      match findFrom be dCk s1 with
-      | none => .err "eof"
-      | some e1 =>
-        match findFrom (e1 + 1) dSOH s1 with
+      if be < 0 then .fault "slice bounds out of range"
+      else
+        match findFrom be.toNat dCk s1 with
         | none => .err "eof"
-        | some e2 => .ok (s1.take (e2 + 1), s1.drop (e2 + 1))
+        | some e1 =>
+          match findFrom (e1 + 1) dSOH s1 with
+          | none => .err "eof"
+          | some e2 => .ok (s1.take (e2 + 1), s1.drop (e2 + 1))
     | .err x => .err x
     | .fault w => .fault w
 
@@ -63,16 +65,18 @@ theorem nextFrame_shorter {g : Bool} {s m r : Bytes} (h : nextFrame g s = .ok (m
       · cases h
       · split at h
         · cases h
-        · rename_i e2 he2
-          simp only [Res.ok.injEq, Prod.mk.injEq] at h
-          rw [← h.2]
-          simp only [List.length_drop]
-          unfold findFrom at he2
-          split at he2
-          · rename_i hle
-            simp only [List.length_drop] at hle
-            omega
-          · cases he2
+        · split at h
+          · cases h
+          · rename_i e2 he2
+            simp only [Res.ok.injEq, Prod.mk.injEq] at h
+            rw [← h.2]
+            simp only [List.length_drop]
+            unfold findFrom at he2
+            split at he2
+            · rename_i hle
+              simp only [List.length_drop] at hle
+              omega
+            · cases he2
     · cases h
     · cases h
 
